@@ -22,12 +22,11 @@ fn any_cbor_int() -> (i128, Value) {
   (n, Value::Integer(ciborium::value::Integer::try_from(n).unwrap()))
 }
 
-/// Appendix D over the whole CBOR head range −2^64 … 2^64−1 and every float:
-/// uint = #0, nint = #1, int = uint / nint, integer ⊇ int, unsigned ⊇ uint (no negative),
-/// number = int / float, floatNN = floats only.
+/// Appendix D over the whole CBOR head range −2^64 … 2^64−1: uint = #0, nint = #1,
+/// int = uint / nint.
 #[kani::proof]
 #[kani::unwind(12)]
-fn c09_prelude_numeric_int() {
+fn c09_prelude_int_uint_nint() {
   let cddl = CDDL { rules: vec![], comments: None };
   let (n, v) = any_cbor_int();
   let m = |s: &'static str| cb::numeric_ident_matches_cbor_value(&cddl, &id(s), &v);
@@ -38,21 +37,46 @@ fn c09_prelude_numeric_int() {
   assert!(nint == (n < 0));
   assert!(int == (uint || nint));
   assert!(int);
-  assert!(m("integer"));
-  assert!(m("unsigned") == (n >= 0));
-  assert!(m("number") == int);
-  assert!(!m("float") && !m("float16") && !m("float32") && !m("float64"));
-  assert!(!m("float16-32") && !m("float32-64"));
-  assert!(!m("tstr") && !m("bool") && !m("bstr") && !m("nil"));
   kani::cover!(n == -(1i128 << 64));
   kani::cover!(n == (1i128 << 64) - 1);
   kani::cover!(n == -1);
   core::mem::forget(cddl);
 }
 
+/// integer ⊇ int, unsigned ⊇ uint (never a negative), number = int / float — integer side.
 #[kani::proof]
 #[kani::unwind(12)]
-fn c09_prelude_numeric_float() {
+fn c09_prelude_integer_unsigned_number() {
+  let cddl = CDDL { rules: vec![], comments: None };
+  let (n, v) = any_cbor_int();
+  let m = |s: &'static str| cb::numeric_ident_matches_cbor_value(&cddl, &id(s), &v);
+  assert!(m("integer"));
+  assert!(m("unsigned") == (n >= 0));
+  assert!(m("number"));
+  kani::cover!(n < 0);
+  kani::cover!(n > u64::MAX as i128 - 1);
+  core::mem::forget(cddl);
+}
+
+/// An integer belongs to no float type and to no non-numeric prelude type.
+#[kani::proof]
+#[kani::unwind(12)]
+fn c09_prelude_int_not_float() {
+  let cddl = CDDL { rules: vec![], comments: None };
+  let (n, v) = any_cbor_int();
+  let m = |s: &'static str| cb::numeric_ident_matches_cbor_value(&cddl, &id(s), &v);
+  assert!(!m("float") && !m("float16") && !m("float32") && !m("float64"));
+  assert!(!m("float16-32") && !m("float32-64"));
+  assert!(!m("tstr") && !m("bool") && !m("bstr") && !m("nil"));
+  kani::cover!(n == 0);
+  core::mem::forget(cddl);
+}
+
+/// Every float (any bits, NaN and infinities included) belongs to number and to the float
+/// types, and to no integer type.
+#[kani::proof]
+#[kani::unwind(12)]
+fn c09_prelude_float_side() {
   let cddl = CDDL { rules: vec![], comments: None };
   let bits: u64 = kani::any();
   let v = Value::Float(f64::from_bits(bits));
@@ -61,18 +85,27 @@ fn c09_prelude_numeric_float() {
   assert!(m("number"));
   assert!(m("float") && m("float16") && m("float32") && m("float64"));
   assert!(m("float16-32") && m("float32-64"));
-  assert!(!m("tstr") && !m("bool"));
-  // non-numeric values belong to no numeric domain
-  let others = [Value::Null, Value::Bool(true), Value::Simple(0)];
-  let mut i = 0;
-  while i < 3 {
-    assert!(!cb::numeric_ident_matches_cbor_value(&cddl, &id("number"), &others[i]));
-    assert!(!cb::numeric_ident_matches_cbor_value(&cddl, &id("int"), &others[i]));
-    i += 1;
-  }
   kani::cover!(bits == 0x7ff8_0000_0000_0000);
   core::mem::forget(cddl);
-  core::mem::forget(others);
+}
+
+/// Non-numeric values belong to no numeric domain.
+#[kani::proof]
+#[kani::unwind(12)]
+fn c09_prelude_non_numeric_values() {
+  let cddl = CDDL { rules: vec![], comments: None };
+  let which: u8 = kani::any();
+  let s: u8 = kani::any();
+  let v = match which % 3 {
+    0 => Value::Null,
+    1 => Value::Bool(s & 1 == 1),
+    _ => Value::Simple(s),
+  };
+  assert!(!cb::numeric_ident_matches_cbor_value(&cddl, &id("number"), &v));
+  assert!(!cb::numeric_ident_matches_cbor_value(&cddl, &id("int"), &v));
+  assert!(!cb::numeric_ident_matches_cbor_value(&cddl, &id("float"), &v));
+  kani::cover!(which % 3 == 2);
+  core::mem::forget(cddl);
 }
 
 /// biguint = #6.2(bstr), bignint = #6.3(bstr), bigint = biguint / bignint; every tag number.
